@@ -665,6 +665,171 @@ func bootCase(nu, de []float64, conf float64, n int, tag string) {
 	hx.Printf("sobs %d ord=%d in=%s\n", cid, ord, in)
 }
 
+// ---------------------------------------------------------------- several points in one AddSummaries call
+
+type point struct{ nu, de []float64 }
+
+// buildPoints puts every point at its own benchmark (and alternating series stamps) of one table.
+func buildPoints(pts []point) (*benchseries.ComparisonSeries, []string, []string) {
+	b := newBuilder(0)
+	var benchNames, serNames []string
+	for i, p := range pts {
+		bn := "B" + strconv.Itoa(i)
+		s := i % 2
+		add := func(role string, v float64) {
+			b.Add(res{bench: bn, exp: "2021-01-01T00:00:00Z", ser: stampsA[s], role: role, nh: "n" + strconv.Itoa(s), dh: "d", units: []string{"ns/op"}, vals: []float64{v}}.toResult())
+		}
+		for _, v := range p.nu {
+			add("num", v)
+		}
+		for _, v := range p.de {
+			add("den", v)
+		}
+		ser, _ := benchseries.NormalizeDateString(stampsA[s])
+		benchNames = append(benchNames, bn)
+		serNames = append(serNames, ser)
+	}
+	css, err := b.AllComparisonSeries(nil, benchseries.DUPE_REPLACE)
+	if err != nil || len(css) != 1 {
+		panic(fmt.Sprint("multi-point set-up failed: ", err))
+	}
+	return css[0], benchNames, serNames
+}
+
+func sumBits(s *benchseries.ComparisonSummary) string {
+	return nanCanon(s.Low) + ":" + nanCanon(s.Center) + ":" + nanCanon(s.High)
+}
+
+// multiCase: one AddSummaries call over several points; every point's summary must be the summary its own
+// samples produce alone (a fresh one-point series), and lie within the ratios attainable from its own samples.
+func multiCase(pts []point, conf float64, n int, tag string) {
+	cid := id
+	id++
+	defer func() {
+		if e := recover(); e != nil {
+			hx.Printf("crash %d %s\n", cid, strings.ReplaceAll(fmt.Sprint(e), "\n", " "))
+		}
+	}()
+	cs, benchNames, serNames := buildPoints(pts)
+	var enc []string
+	for i, p := range pts {
+		c, ok := cs.ComparisonAt(benchNames[i], serNames[i])
+		if !ok {
+			panic("no comparison")
+		}
+		rng := rand.New(rand.NewSource(benchseries.VerifSeed(c)))
+		var stream []string
+		for k := 0; k < n; k++ {
+			for range p.nu {
+				stream = append(stream, strconv.Itoa(rng.Intn(len(p.nu))))
+			}
+			for range p.de {
+				stream = append(stream, strconv.Itoa(rng.Intn(len(p.de))))
+			}
+		}
+		enc = append(enc, bitsList(p.nu)+";"+bitsList(p.de)+";"+strings.Join(stream, ","))
+	}
+	hx.Printf("case %d kind=multi conf=%s n=%d pts=%s tag=%s\n", cid, hx.F64(conf), n, strings.Join(enc, "|"), tag)
+	cs.AddSummaries(conf, n)
+	var sums, same, in []string
+	for i, p := range pts {
+		sum, ok := cs.SummaryAt(benchNames[i], serNames[i])
+		if !ok || sum == nil {
+			panic("no summary")
+		}
+		sums = append(sums, sumBits(sum))
+		// the same samples alone
+		one, b1, s1 := buildPoints([]point{p})
+		one.AddSummaries(conf, n)
+		ref, _ := one.SummaryAt(b1[0], s1[0])
+		if sumBits(ref) == sumBits(sum) {
+			same = append(same, "1")
+		} else {
+			same = append(same, "0")
+		}
+		pos := true
+		for _, v := range append(append([]float64{}, p.nu...), p.de...) {
+			if !(v > 0) || math.IsInf(v, 0) {
+				pos = false
+			}
+		}
+		if !pos {
+			in = append(in, "n")
+			continue
+		}
+		mn := func(a []float64) (lo, hi float64) {
+			lo, hi = a[0], a[0]
+			for _, v := range a {
+				lo, hi = math.Min(lo, v), math.Max(hi, v)
+			}
+			return
+		}
+		nl, nh := mn(p.nu)
+		dl, dh := mn(p.de)
+		lo, hi := nl/dh, nh/dl
+		if lo <= sum.Low && sum.Low <= hi && lo <= sum.Center && sum.Center <= hi && lo <= sum.High && sum.High <= hi {
+			in = append(in, "1")
+		} else {
+			in = append(in, "0")
+		}
+	}
+	hx.Printf("obs %d sums=%s\n", cid, strings.Join(sums, ","))
+	hx.Printf("sobs %d same=%s in=%s\n", cid, strings.Join(same, ""), strings.Join(in, ""))
+}
+
+func multiCases(r *hx.Rand) {
+	// corpus: mirrored pair (benchmarks "Slower" / "Faster"), equal seeds through a zero hash
+	a, b := []float64{10, 11, 12, 13}, []float64{20, 21, 23}
+	multiCase([]point{{a, b}, {b, a}}, 0.95, 10, "corpus+mirror")
+	multiCase([]point{{b, a}, {a, b}, {a, b}}, 0.9, 5, "corpus+mirror+identical")
+	multiCase([]point{{[]float64{1, 2, 3}, []float64{0}}, {[]float64{7, 8}, []float64{0}}}, 0.9, 5, "corpus+seedzero")
+	multiCase([]point{{[]float64{0}, []float64{1, 2}}, {[]float64{0}, []float64{4, 5, 6}}, {[]float64{3}, []float64{0}}}, 0.8, 4, "corpus+seedzero")
+	multiCase([]point{{[]float64{100}, []float64{200}}, {[]float64{200}, []float64{100}}}, 0.95, 10, "corpus+mirror+exact")
+	nm := hx.N(120, 2000)
+	confs := []float64{0.95, 0.9, 0.99, 0.8, 0.5}
+	for i := 0; i < nm; i++ {
+		npool := 2 + r.Intn(2)
+		kind := r.Intn(4)
+		pool := make([][]float64, npool)
+		for j := range pool {
+			pool[j] = genSample(r, 1+r.Intn(5), kind)
+		}
+		if r.Chance(1, 5) {
+			pool[0] = []float64{0}
+		}
+		k := 2 + r.Intn(5)
+		var pts []point
+		tags := map[string]bool{}
+		for len(pts) < k {
+			x, y := r.Intn(npool), r.Intn(npool)
+			pts = append(pts, point{pool[x], pool[y]})
+			if x != y && len(pts) < k && r.Chance(1, 2) {
+				pts = append(pts, point{pool[y], pool[x]})
+				tags["mirror"] = true
+			}
+		}
+		for i := range pts {
+			for j := 0; j < i; j++ {
+				if &pts[i].nu[0] == &pts[j].nu[0] && &pts[i].de[0] == &pts[j].de[0] {
+					tags["identical"] = true
+				}
+				if &pts[i].nu[0] == &pts[j].de[0] && &pts[i].de[0] == &pts[j].nu[0] && &pts[i].nu[0] != &pts[i].de[0] {
+					tags["mirror"] = true
+				}
+			}
+		}
+		if len(pool[0]) == 1 && pool[0][0] == 0 {
+			tags["seedzero"] = true
+		}
+		tl := []string{"multi"}
+		for t := range tags {
+			tl = append(tl, t)
+		}
+		sort.Strings(tl)
+		multiCase(pts, hx.Pick(r, confs), []int{2, 3, 5, 10}[r.Intn(4)], strings.Join(tl, "+"))
+	}
+}
+
 func genSample(r *hx.Rand, n int, kind int) []float64 {
 	out := make([]float64, n)
 	base := float64(1 + r.Intn(1000))
@@ -941,5 +1106,6 @@ func main() {
 		seriesCaseN(aliasShape(r, []int{5, 3, 6, 2}[r.Intn(4)], 2+r.Intn(2)), 0, 1, r, []string{"alias", "multiexp", "multiser", "large"}, 4)
 	}
 	bootstrapCases(r)
+	multiCases(r)
 	dateCases(r)
 }
